@@ -123,6 +123,10 @@ pub struct Be<V> {
     /// while true, the set_config callback does not return (C16: shutdown while inside the handler)
     pub block_set_config: std::sync::atomic::AtomicBool,
     pub in_set_config: std::sync::atomic::AtomicBool,
+    /// while true, the device-level callbacks that can fail do fail (C03: failures reported by the device itself)
+    pub fail_device_calls: std::sync::atomic::AtomicBool,
+    /// get_config returns size + delta bytes (C03: wrong-length configuration data)
+    pub config_len_delta: std::sync::atomic::AtomicI32,
 }
 
 impl<V> Be<V> {
@@ -152,6 +156,8 @@ impl<V> Be<V> {
             handle_event_calls: AtomicUsize::new(0),
             block_set_config: std::sync::atomic::AtomicBool::new(false),
             in_set_config: std::sync::atomic::AtomicBool::new(false),
+            fail_device_calls: std::sync::atomic::AtomicBool::new(false),
+            config_len_delta: std::sync::atomic::AtomicI32::new(0),
             cfg,
         })
     }
@@ -192,9 +198,16 @@ impl<V: VringT<GM> + Send + Sync + 'static> VhostUserBackend for Be<V> {
         self.st.lock().unwrap().event_idx.push(enabled);
     }
     fn get_config(&self, offset: u32, size: u32) -> Vec<u8> {
-        crate::rec_backend::config_pattern(offset, size)
+        let d = self.config_len_delta.load(Ordering::SeqCst);
+        let n = (size as i64 + d as i64).clamp(0, 8192) as u32;
+        let mut v = crate::rec_backend::config_pattern(offset, size.max(n));
+        v.truncate(n as usize);
+        v
     }
     fn set_config(&self, offset: u32, buf: &[u8]) -> std::io::Result<()> {
+        if self.fail_device_calls.load(Ordering::SeqCst) {
+            return Err(std::io::Error::other("scripted device failure"));
+        }
         self.st.lock().unwrap().config_sets.push((offset, buf.to_vec()));
         self.in_set_config.store(true, Ordering::SeqCst);
         while self.block_set_config.load(Ordering::SeqCst) {
@@ -216,6 +229,9 @@ impl<V: VringT<GM> + Send + Sync + 'static> VhostUserBackend for Be<V> {
         self.st.lock().unwrap().backends.push(backend);
     }
     fn get_shared_object(&self, _uuid: VhostUserSharedMsg) -> std::io::Result<std::fs::File> {
+        if self.fail_device_calls.load(Ordering::SeqCst) {
+            return Err(std::io::Error::other("scripted device failure"));
+        }
         Ok(std::fs::File::from(crate::fdtrack::make_fd(crate::fdtrack::FdKind::Memfd)))
     }
     fn queues_per_thread(&self) -> Vec<u64> {
@@ -270,6 +286,9 @@ impl<V: VringT<GM> + Send + Sync + 'static> VhostUserBackend for Be<V> {
         Ok(())
     }
     fn get_shmem_config(&self) -> std::io::Result<VhostUserShMemConfig> {
+        if self.fail_device_calls.load(Ordering::SeqCst) {
+            return Err(std::io::Error::other("scripted device failure"));
+        }
         Ok(VhostUserShMemConfig::new(2, &[0x1000, 0x2000]))
     }
     fn set_device_state_fd(
@@ -278,9 +297,15 @@ impl<V: VringT<GM> + Send + Sync + 'static> VhostUserBackend for Be<V> {
         _p: vhost::vhost_user::message::VhostTransferStatePhase,
         _f: std::fs::File,
     ) -> std::io::Result<Option<std::fs::File>> {
+        if self.fail_device_calls.load(Ordering::SeqCst) {
+            return Err(std::io::Error::other("scripted device failure"));
+        }
         Ok(None)
     }
     fn check_device_state(&self) -> std::io::Result<()> {
+        if self.fail_device_calls.load(Ordering::SeqCst) {
+            return Err(std::io::Error::other("scripted device failure"));
+        }
         Ok(())
     }
 }
@@ -342,6 +367,14 @@ impl<V: VringT<GM> + Send + Sync + 'static> VhostUserBackendMut for BeMut<V> {
     }
     fn check_device_state(&self) -> std::io::Result<()> {
         VhostUserBackend::check_device_state(&*self.0)
+    }
+    fn set_device_state_fd(
+        &mut self,
+        d: vhost::vhost_user::message::VhostTransferStateDirection,
+        p: vhost::vhost_user::message::VhostTransferStatePhase,
+        f: std::fs::File,
+    ) -> std::io::Result<Option<std::fs::File>> {
+        VhostUserBackend::set_device_state_fd(&*self.0, d, p, f)
     }
 }
 
